@@ -94,7 +94,11 @@ def doStreamSync (s : St) (e : Ev) : St :=
   let s := { s with sc := s.sc + 1 }
   if s.sc < MINS then s
   else if e.eotTrig then { s with swt := 1, st := 6, eot := true, msc := 0 }
-  else if e.lsfUpd < 0 then { s with msc := 0, ssi := e.lsfIdx, swt := 1, st := 5, eot := false }
+  else if e.lsfUpd < 0 then
+    -- a sync word confirms the lock only if the last frame decoded below the cost limit
+    if s.cost < SCOST then { s with msc := 0, ssi := e.lsfIdx, swt := 1, st := 5, eot := false }
+    else if s.msc < MAXMISS then { s with msc := s.msc + 1, ssi := e.lsfIdx, swt := 1, st := 5, eot := false }
+    else { s with st := 0, eot := false }
   else if s.sc > MAXS then
     let s' :=
       if s.cost < SCOST ∧ s.msc < MAXMISS then { s with msc := s.msc + 1, swt := 1, st := 6 }
@@ -108,7 +112,10 @@ def doStreamSync (s : St) (e : Ev) : St :=
 def doPacketSync (bert : Bool) (s : St) (e : Ev) : St :=
   let s := { s with sc := s.sc + 1 }
   if s.sc < MINS then s
-  else if (if bert then e.pktUpd < 0 else e.pktUpd ≠ 0) then { s with msc := 0, ssi := e.pktIdx, swt := if bert then 3 else 2, st := 5 }
+  else if (if bert then e.pktUpd < 0 else e.pktUpd ≠ 0) then
+    if s.cost < (if bert then SCOST else PCOST) then { s with msc := 0, ssi := e.pktIdx, swt := if bert then 3 else 2, st := 5 }
+    else if s.msc < MAXMISS then { s with msc := s.msc + 1, ssi := e.pktIdx, swt := if bert then 3 else 2, st := 5 }
+    else { s with st := 0 }
   else if s.sc > MAXS then
     if s.cost < (if bert then SCOST else PCOST) then { s with msc := if s.msc = 0 then 1 else s.msc, swt := if bert then 3 else 2, st := 6 }
     else if s.msc < MAXMISS then { s with msc := s.msc + 1, swt := if bert then 3 else 2, st := 6 }
